@@ -355,18 +355,18 @@ fn combined_checks(rng: &mut Rng, count: u64, st: &mut Stats) {
 }
 
 // ---- concurrent inserts: unique values make the history unambiguous
-fn concurrent_checks(rng: &mut Rng, rounds: u64, st: &mut Stats) -> (u64, u64) {
+fn concurrent_checks(rng: &mut Rng, rounds: u64, st: &mut Stats, noperturb: bool, maxthreads: usize) -> (u64, u64) {
    let mut total_inserts = 0u64;
    let mut races = 0u64;
    for round in 0..rounds {
-      let threads = [2usize, 3, 4, 8, 16, 32][rng.below(6)];
-      let per = 20 + rng.below(200);
+      let threads = [2usize, 3, 4, 8, 16, 32][rng.below(6)].min(maxthreads);
+      let per = if maxthreads < 8 { 6 + rng.below(10) } else { 20 + rng.below(200) };
       let hot = 1 + rng.below(4) as u8;
       let perturb = rng.next() | 1;
       st.sequences += 1;
       let r = catch_unwind(AssertUnwindSafe(|| {
          let mut fails: Vec<(String, String)> = vec![];
-         ascent::verif::perturb_arm(if round % 2 == 0 { perturb } else { 0 });
+         ascent::verif::perturb_arm(if round % 2 == 0 && !noperturb { perturb } else { 0 });
          let pool = rayon::ThreadPoolBuilder::new().num_threads(threads).build().unwrap();
          let ri: CRelIndex<K, V> = Default::default();
          let li: CLatIndex<K, V> = Default::default();
@@ -447,8 +447,8 @@ fn concurrent_checks(rng: &mut Rng, rounds: u64, st: &mut Stats) -> (u64, u64) {
          // fresh-key races: after a barrier every worker walks the SAME sequence of fresh keys, so that all of them reach
          // each absent key at about the same time; exactly one may win each key
          let fresh: CRelFullIndex<K, V> = Default::default();
-         let nfresh = 200u8;
-         ascent::verif::perturb_arm(if round % 2 == 0 { perturb.rotate_left(9) | 1 } else { 0 });
+         let nfresh = if maxthreads < 8 { 12u8 } else { 200u8 };
+         ascent::verif::perturb_arm(if round % 2 == 0 && !noperturb { perturb.rotate_left(9) | 1 } else { 0 });
          let barrier = std::sync::Barrier::new(threads);
          let wins: Vec<Vec<u8>> = std::thread::scope(|sc| {
             let hs: Vec<_> = (0..threads)
@@ -500,6 +500,8 @@ fn main() {
    let nrandom = arg("random", 300);
    let rounds = arg("rounds", 60);
    let conc_only = arg("conc_only", 0) == 1;
+   let noperturb = arg("noperturb", 0) == 1;
+   let maxthreads = arg("maxthreads", 32) as usize;
    let mut rng = Rng::new(seed);
    let mut st = Stats { sequences: 0, sequences_ge2: 0, ops: 0, merges_swapped: 0, merges_unswapped: 0, viol: vec![] };
    let mut ex = 0;
@@ -519,7 +521,7 @@ fn main() {
       no_index_checks(&mut rng, nrandom, &mut st);
       combined_checks(&mut rng, nrandom, &mut st);
    }
-   let (cins, races) = concurrent_checks(&mut rng, rounds, &mut st);
+   let (cins, races) = concurrent_checks(&mut rng, rounds, &mut st, noperturb, maxthreads);
    println!(
       "{{\"sequences\":{},\"sequences_with_2_or_more_operations\":{},\"exhaustive_sequences\":{},\"operations\":{},\"merges_delta_larger\":{},\"merges_total_larger_or_equal\":{},\"concurrent_rounds\":{},\"concurrent_inserts\":{},\"insert_if_absent_lost_races\":{},\"violations\":{}}}",
       st.sequences, st.sequences_ge2, ex, st.ops, st.merges_swapped, st.merges_unswapped, rounds, cins, races, st.viol.len()
